@@ -40,6 +40,14 @@ def i1_routing(ctx):
         got[p[1]] += 1
         ctx.inst(R)
         g = {(r.r(c), pol) for c, pol, s in guards_at(f['body'], n)}
+        # the same guards in canonical form (operator bool of a bitset reference, negations and early `continue`s folded):
+        # an atom X stands for "X is set"; give it the spelling the tests below expect as well
+        from .. import boolform
+        lits = boolform.literals(boolform.path_condition(f['body'], n, boolform.Former(f, renderer=r, expand_locals=False))) or set()
+        for a_, pol_ in lits:
+            g.add((a_, pol_))
+            if a_.startswith('([] '):
+                g.add((BOOL % a_, pol_))
         args = [r.r(a) for a in n['args'][1:]]
         # the irq loop variable: the one indexing bits
         irqs = [m.group(1) for c, pol in g for m in [re.match(r'^\(call std::bitset<16>::reference::operator bool on \(\[\] %s (l:[\w@]+)\) \)$' % re.escape(b), c)] if m and pol]
